@@ -2,8 +2,10 @@
 Tie B: hand-written Gallina model (coq/C19/Model.v) with the theorems of coq/C19/Properties.v;
 correspondence = extracted model vs the real Observable/Observer/TimeStamp classes on the same
 histories (ASan+UBSan), plus a multi-threaded TimeStamp run checked against the property text."""
-import json, os, re
+import json, os, re, sys
 import vlib
+sys.path.insert(0, os.path.dirname(os.path.abspath(__file__)))
+import factgen  # noqa: E402
 
 REPO_SRC = ["rkcommon/utility/TimeStamp.cpp"]
 NB, NO = 2, 4
@@ -262,8 +264,38 @@ def single(ctx, exe, line):
     return rc, out.strip("\n"), err
 
 
+def source_facts(ctx):
+    """(c) regenerate coq/C19/gen/Facts.v from the working tree (clang AST of TimeStamp.{h,cpp}, Observer.h)."""
+    gen_v = os.path.join(ctx.coqdir, "gen", "Facts.v")
+    facts_js = os.path.join(ctx.build, "facts.json")
+    try:
+        factgen.main(["--repo", ctx.repo, "--out", gen_v, "--json", facts_js, "--work", os.path.join(ctx.build, "ast")])
+        facts = json.load(open(facts_js))
+    except Exception as ex:   # noqa
+        ctx.broken.append("fact extraction failed: %r" % (ex,))
+        facts = {"ts": {}, "table": {}, "of": {}, "notes": [repr(ex)[:500]]}
+        os.makedirs(os.path.dirname(gen_v), exist_ok=True)
+        ts = {k: False for k in ("ts_global_static", "ts_global_atomic", "ts_value_atomic", "ts_value_init_next",
+                                 "ts_default_ctor_defaulted", "ts_copy_ctor_inits_value", "ts_conv_returns_value")}
+        ts.update({"ts_next": "ROther"}, **{k: ["TUnknown"] for k in ("ts_renew", "ts_copy_ctor", "ts_move_ctor", "ts_copy_assign", "ts_move_assign")})
+        open(gen_v, "w").write(factgen.coq_text(ts, {m: ["SUnknown"] for m in factgen.OMETHS},
+                                                {k: False for k in ("of_notified_is_timestamp", "of_observers_is_vector", "of_observable_ctor_defaulted",
+                                                                    "of_observed_is_timestamp", "of_observee_init_arg", "of_observee_default_null", "of_lt_via_size_t")}))
+    ctx.cov["source_facts"] = {"timestamp": facts.get("ts"), "members": facts.get("table"), "fields": facts.get("of"), "notes": facts.get("notes")}
+    return facts
+
+
+FACT_THMS = ("facts_table_match", "facts_members", "facts_step", "facts_timestamp_counter", "facts_next_is_fetch_add", "facts_timestamp_ops")
+
+
 def run(ctx):
-    ctx.coq_check(("Properties.v",))
+    facts = source_facts(ctx)
+    res = ctx.coq_check(("Properties.v", "PropertiesFactsObs.v", "PropertiesFactsTS.v"))
+    bad_facts = [t for t in FACT_THMS if not res.get(t)]
+    if bad_facts:
+        ctx.log("source-derived obligations that no longer hold: %s; extractor notes: %s; extracted: %s"
+                % (bad_facts, facts.get("notes"), json.dumps({"ts": facts.get("ts"), "table": facts.get("table"), "of": facts.get("of")})[:1500]))
+    ctx.cov["source_obligations_broken"] = bad_facts
     model = ctx.extract(snippets=["conv_N.ml"])
     priv = True
     nbroken = len(ctx.broken)
@@ -452,7 +484,9 @@ def run(ctx):
                       {"threads": bad[0], "iterations_per_thread": bad[1], "rc": bad[2], "observed": bad[3], "stderr_tail": bad[4],
                        "required": "all fresh/renewed values pairwise distinct, strictly increasing per thread, copies equal their source, no data race",
                        "rerun": "%s threads %d %d" % (thr, bad[0], bad[1])})
-    ctx.trusted += ["correspondence harness harness/C19/harness.cpp + generators/oracle in props/C19/check.py (g++ -O1, ASan+UBSan; threads test -O2"
+    ctx.trusted += ["fact extractor props/C19/factgen.py + tools/sxast/sxast.py over `clang++ -std=c++11 -fsyntax-only -Xclang -ast-dump=json` of the working tree's "
+                    "TimeStamp.{h,cpp} and Observer.h (statement patterns -> coq/C19/gen/Facts.v; the meaning given to each statement is coq/C19/FactsDefs.v)",
+                    "correspondence harness harness/C19/harness.cpp + generators/oracle in props/C19/check.py (g++ -O1, ASan+UBSan; threads test -O2"
                     + ("; TSan build" if tsan else "") + ")",
                     "modelled, not verified: std::vector push_back / std::remove+erase, operator new/delete (the harness keeps every object on the heap "
                     "so ASan sees stale pointers), std::atomic<size_t> post-increment as one indivisible fetch-add (the threads run observes it)"]
@@ -462,4 +496,4 @@ def run(ctx):
                         "Observable/Observer operations are sequential (the classes are not thread-safe and the property does not ask for it); "
                         "only TimeStamp is exercised from several threads"]
     if ctx.thorough():
-        ctx.coq_thorough_chk(["C19.Properties"])
+        ctx.coq_thorough_chk(["C19.Properties", "C19.PropertiesFactsObs", "C19.PropertiesFactsTS"])
